@@ -403,7 +403,15 @@ func (x *XRefParser) parseXRefStream() (*XRefTable, error) {
 		if !ok {
 			return nil, fmt.Errorf("invalid /W element type: %T", val)
 		}
+		// Field widths are small non-negative byte counts (ISO 32000-1 7.5.8.2)
+		if intVal < 0 || intVal > 8 {
+			return nil, fmt.Errorf("invalid /W element value: %d", intVal)
+		}
 		w[i] = int(intVal)
+	}
+	entryWidth := w[0] + w[1] + w[2]
+	if entryWidth == 0 {
+		return nil, fmt.Errorf("invalid /W array: all field widths are zero")
 	}
 
 	// Parse entries from binary data
@@ -414,10 +422,17 @@ func (x *XRefParser) parseXRefStream() (*XRefTable, error) {
 	table.Trailer = stream.Dict
 
 	// Process subsections defined by /Index
+	if len(index)%2 != 0 {
+		return nil, fmt.Errorf("invalid /Index array length: %d (expected pairs)", len(index))
+	}
 	dataOffset := 0
 	for i := 0; i < len(index); i += 2 {
 		firstObjNum := index[i]
 		count := index[i+1]
+		// A subsection cannot describe more entries than the stream holds
+		if firstObjNum < 0 || count < 0 || count > (len(data)-dataOffset)/entryWidth {
+			return nil, fmt.Errorf("invalid /Index subsection [%d %d] for %d bytes of xref data", firstObjNum, count, len(data)-dataOffset)
+		}
 
 		for j := 0; j < count; j++ {
 			objNum := firstObjNum + j
